@@ -108,6 +108,25 @@ for pid in ["C01","C02","C03","C04","C05","C08","C09","C10","C11","C12","C13","C
     if pid not in P:
         prop(pid, False, "", "", "", "", "", reason=PENDING)
 
+# --- additions after the seeding rounds (appended to the level texts) --------------------------------------------
+EXTRA_TEXT = {
+    "C01": " Also after failed calls: balance and smart queries through App equal the committed state. Address / registry differences following a rolled-back instantiation are attributed here, too.",
+    "C02": " A rolled-back instantiation leaves no trace in later addresses or in the registry.",
+    "C04": " Includes event types that already start with wasm- or equal entry-point names and data that is itself an encoded execute / instantiate response.",
+    "C05": " Histories also run on chains built with MockApiBech32 / MockApiBech32m and with respelled addresses (rejected by every codec); signers include non-addresses such as the empty string.",
+    "C07": " Several operations on one held view object (mutable and read-only, incl. redundant writes) are compared read by read; range_keys / range_values are projections of range.",
+    "C08": " Own storage iterated in descending order at entry and after the call's own writes equals the model; writes and removals through App::contract_storage_mut land in that contract's key space only.",
+    "C10": " After a failed call App queries equal the committed state; staking queries equal the raw staking state; smart queries are answered by the recorded code.",
+    "C12": " Codes assembled by ContractWrapper::new without reply / sudo / migrate entry points: a migration to a code without migrate fails and changes nothing. Admin-less contracts reject every signer incl. the empty string.",
+    "C13": " Values include long, padded, reserved-looking and multi-line strings.",
+    "C17": " Module answers rotate over data / events / both / nothing (reply_on Success and Always must still deliver exactly that answer); execute_multi batches: modules see exactly the prefix up to the first failing message.",
+    "C18": " Whatever validation accepts it returns unchanged (all upper case and non-zero padding-bit spellings of valid addresses are tried).",
+    "C19": " Staking and bank programs are generated on a thread of their own and compared between a never-used thread, the used worker thread and other processes that receive the programs in a file; transcripts include env.transaction, reply.gas_used and reply.msg_responses.",
+    "C20": " Steps given twice (decoy first) equal the chain with the value supplied last; every wrapped entry point's whole response (attributes, event, data, sub-messages with gas limits, plain messages) arrives unchanged; App::default / App::new / custom_app give the documented defaults.",
+}
+for _pid, _t in EXTRA_TEXT.items():
+    P[_pid]["text"] += _t
+
 def main():
     checks, na = [], []
     for pid in sorted(P):
